@@ -357,8 +357,23 @@ func runDirectional(c *hlib.Ctx) {
 		}
 		fov := []float64{0, math.Pi / 3.6, 0.3, 0.6, 1.2, 2.0, math.Pi / 2}[it%7]
 		dir := randUnit(c)
-		// hypothesis of directional_camera_contains: the farthest candidate contains the box
+		if c.Rng.Intn(6) == 0 { // along z: the fallback x axis of NewCameraAt
+			dir = model3d.Z(float64(1 - 2*c.Rng.Intn(2)))
+		}
 		min, max := obj.Min(), obj.Max()
+		// step by step: the model runs NewCameraAt + Uncaster + the 32 bisection steps in the same
+		// floating-point operations; the returned camera must agree bit-for-bit.
+		eff := fov
+		if eff == 0 {
+			eff = render3d.DefaultFieldOfView
+		}
+		full := withTimeout(20*time.Second, func() string {
+			cam := render3d.DirectionalCamera(obj, dir, fov)
+			return hex3(cam.Origin) + " " + hex3(cam.ScreenX) + " " + hex3(cam.ScreenY)
+		})
+		c.Emit(fmt.Sprintf("c20 dircamf %s %s %s %s %s %s %s %s", hlib.Hex(1/math.Tan(eff/2)), hlib.Hex(1e-5), hlib.Hex(0.05),
+			hlib.Hex(1e-4), hlib.Hex(1e4), hex3(min), hex3(max), hex3(dir)), full)
+		// hypothesis of directional_camera_contains: the farthest candidate contains the box
 		center := min.Mid(max)
 		far := render3d.NewCameraAt(center.Add(dir.Scale(min.Dist(max)*1e4)), center, fov)
 		if ok, _ := bboxContained(far, obj); !ok {
